@@ -148,6 +148,31 @@ extern "C" void harness(void)
     VASSERT(verif_stream_cnt(&o3, wopen) == 1 && verif_stream_cnt(&o3, wsep) == 0 && verif_stream_cnt(&o3, wclose) == 1, "C18.empty_collection");
   }
   check_restore = false;   // collections print through the stream directly; restoration is claimed for leaves (T0,T1)
+#elif VF_T == 7        /* collections whose ELEMENTS are built-in arrays: still element-wise, never a pointer or a C string */
+  { int g[2][2] = {{x, y}, {z, x}};
+    trompeloeil::print(os, g);
+    VASSERT(verif_stream_cnt(&os, wopen) == 3 && verif_stream_cnt(&os, wsep) == 3 && verif_stream_cnt(&os, wclose) == 3, "C18.array_of_arrays_structure");
+#ifdef VERIF_SYMBOLIC
+    VASSERT(verif_stream_nnum(&os) == 4 && verif_stream_numhash(&os) == VF_HASH(VF_HASH(VF_HASH(VF_HASH(0, (long)x), (long)y), (long)z), (long)x), "C18.array_of_arrays_elements_in_order");
+    VASSERT(verif_stream_fmtbad(&os) == 0, "C18.array_of_arrays_leaves_decimal_unpadded");
+#else
+    std::snprintf(want, sizeof want, "{ { %d, %d }, { %d, %d } }", x, y, z, x);
+#endif
+  }
+  { std::ostringstream o2; verif_stream_set(&o2, w0, f0, c0);
+    std::array<int[2], 2> a{{{x, y}, {y, z}}};
+    trompeloeil::print(o2, a);
+    VASSERT(verif_stream_cnt(&o2, wopen) == 3 && verif_stream_cnt(&o2, wsep) == 3 && verif_stream_cnt(&o2, wclose) == 3, "C18.std_array_of_c_arrays_structure");
+#ifdef VERIF_SYMBOLIC
+    VASSERT(verif_stream_nnum(&o2) == 4, "C18.std_array_of_c_arrays_elements");
+#endif
+  }
+  { std::ostringstream o3; verif_stream_set(&o3, w0, f0, c0);
+    int g3[2][1][2] = {{{x, y}}, {{z, z}}};
+    trompeloeil::print(o3, g3);
+    VASSERT(verif_stream_cnt(&o3, wopen) == 5 && verif_stream_cnt(&o3, wsep) == 3 && verif_stream_cnt(&o3, wclose) == 5, "C18.three_level_array_structure");
+  }
+  check_restore = false;
 #elif VF_T == 6        /* printer<T> customisation point, also when operator<< exists */
   { custom cu{x};
     unsigned wc = verif_watch_str("custom<");
